@@ -131,3 +131,113 @@ func c20Description(c *Ctx) {
 	}
 	c.Check(ok && n > 0, rule, role, fn, "sanitised-last", "GetDescription returns the result of the quote replacement applied to the complete text (nothing is appended afterwards)", "a path returns text that did not pass through the replacement", w)
 }
+
+// C20.R9 / C10.R9 — the revocation writer answers with the error it matched.
+// WriteRevocationResponse is the one writer that does not go through
+// ErrorToRFC6749Error: it classifies err with errors.Is against ErrInvalidRequest
+// and ErrInvalidClient and then marshals the package value itself. Body and
+// status must both come from the value that was matched (a copy/paste slip gives
+// 401 {"error":"invalid_request"}), and both classes must be refusals.
+func checkRevocationWriter(c *Ctx, rule string) {
+	const role = "writer"
+	fn := c.P.Func("(*" + pkgRoot + ".Fosite).WriteRevocationResponse")
+	if fn == nil {
+		c.RoleUnmatched(rule, role, "(*Fosite).WriteRevocationResponse")
+		return
+	}
+	ex := c.Explore(fn, rootCfg(), "root")
+	if !c.complete(ex, rule, role, fn) {
+		return
+	}
+	errP := paramByType(fn, "error")
+	if errP == nil {
+		c.RoleUnmatched(rule, role, "error parameter of WriteRevocationResponse")
+		return
+	}
+	ok := true
+	why := ""
+	var w *Path
+	seen := map[string]bool{}
+	for _, p := range ex.Paths {
+		var x *Term
+		for _, f := range p.Facts {
+			a := f.Atom.A
+			if f.Atom.Kind == "B" && f.Pol && a.IsCall("errors.Is") && len(a.Args) == 2 && a.Args[0].Key() == errP.Key() && a.Args[1].Op == "global" {
+				x = a.Args[1]
+			}
+		}
+		if x == nil {
+			continue
+		}
+		wrote := false
+		for _, e := range p.Events {
+			if e.Kind != "call" || len(e.Args) == 0 {
+				continue
+			}
+			var a *Term
+			switch e.Name {
+			case "json.Marshal":
+				a = e.Args[0]
+			case ".WriteHeader":
+				a = e.Args[0]
+				wrote = true
+			case "http.Error":
+				wrote = true
+				continue
+			default:
+				continue
+			}
+			if !mentionsTerm(a, x) {
+				ok, w, why = false, p, fmt.Sprintf("%s at %s uses %s although the error matched %s", strings.TrimPrefix(e.Name, "."), c.P.Pos(e.Instr.Pos()), clip(a.Pretty(), 60), x.Name)
+			} else if e.Name == ".WriteHeader" {
+				seen[x.Name] = true
+			}
+		}
+		if !wrote {
+			ok, w, why = false, p, "nothing is written for an error that matched "+x.Name
+		}
+	}
+	for _, need := range []string{"fosite.ErrInvalidClient", "fosite.ErrInvalidRequest"} {
+		if !seen[need] && ok {
+			ok, why = false, "no path answers an error matching "+need+" with that error's status and body"
+		}
+	}
+	c.Check(ok, rule, role, fn, "revocation-error-consistent", "WriteRevocationResponse refuses errors matching ErrInvalidClient / ErrInvalidRequest, with body and status taken from the matched value", why, w)
+}
+
+// C20.R10 — the text of an unrecognised error is debug detail. For an error that
+// is not an RFC6749Error (a driver / store / library error) ErrorToRFC6749Error
+// builds a generic server_error; the original text may only go into the debug
+// field (emitted only when the operator enabled it) or the unexported cause.
+// Every client-visible field of that value (name, description, hint) is a
+// constant.
+func c20UnknownErrorText(c *Ctx) {
+	const rule, role = "C20.R10", "error-conversion"
+	fn := c.P.Func(pkgRoot + ".ErrorToRFC6749Error")
+	if fn == nil {
+		c.RoleUnmatched(rule, role, "fosite.ErrorToRFC6749Error")
+		return
+	}
+	ex := c.Explore(fn, ExploreConfig{}, "errors")
+	if !c.complete(ex, rule, role, fn) {
+		return
+	}
+	ok, n := true, 0
+	why := ""
+	var w *Path
+	for _, p := range ex.Paths {
+		for _, e := range p.Events {
+			if e.Kind != "lstore" || len(e.Args) < 2 {
+				continue
+			}
+			switch e.Name {
+			case "ErrorField", "DescriptionField", "HintField":
+				n++
+				if e.Args[1].Op != "const" {
+					ok, w, why = false, p, fmt.Sprintf("%s of the generic error is set to %s", e.Name, clip(e.Args[1].Pretty(), 60))
+				}
+			}
+		}
+	}
+	c.Check(ok && n > 0, rule, role, fn, "unknown-error-text-in-debug-only", "the generic error built for an unrecognised error has constant name, description and hint; the original text goes to the debug field only", why, w)
+}
